@@ -177,6 +177,8 @@ def compile_forms(
 
     # If requested, replace bi-linear forms by their diagonal part
     if p["part"] == "diagonal":
+        # Do not modify the list of the caller
+        forms = list(forms)
         for i, form in enumerate(forms):
             arguments = form.arguments()
             numbers = tuple(sorted(set(a.number() for a in arguments)))
